@@ -25,7 +25,8 @@ are the obligations proved by the runs of those functions here).  read_col runs 
 Obligation names (prefix = function; what a VIOLATION reports):
  read_col[mode].  chunk.bytes_are_first_page_offset_plus_total_compressed_size     prefix_sum.monotone.base/step (lemma, then instantiated)
       page_loop.invariant_on_entry[..] / invariant_preserved[..] (4 / 5 conjuncts)   page.header_parsed_at_page_start
-      dictionary_page.{consumed_as_dictionary, converted_once_and_kept, writes_no_rows, categories_installed_from_it}
+      dictionary_page.{consumed_as_dictionary, converted_once_and_kept, writes_no_rows, categories_installed_from_it,
+      labels_fit_the_code_dtype}   categorical_labels_are_this_chunks_dictionary (for an ARBITRARY prior state of the shared catdef)
       data_page.callsite.{page_cursor_header_metadata, skip_nulls_only_for_selfmade_chunk_without_nulls, selfmade_passed_on}
       data_page.{rows_are_next_window, defined_positions_get_values_in_order, null_positions_get_null,
                  dictionary_indices_dereferenced_through_chunk_dictionary, plain_page_not_routed_through_dictionary}
@@ -1912,7 +1913,7 @@ class Chunk:
                                  self.len_assign >= self.S.num_values, self.S.tcs >= 0, self.S.dpo >= 4,
                                  z3.Implies(z3.Not(self.S.dict_none), z3.And(self.S.dict_off >= 0, z3.Implies(self.S.dict_off > 0,
                                                                                                              self.S.dict_off < self.S.dpo))),
-                                 self.assign.item >= 1, self.iinfo_max >= self.page(z3.IntVal(0)).dnv]
+                                 self.assign.item >= 1, self.iinfo_max >= 0]
         if mode == "categorical":               # category codes: a plain integer array
             self.pre += [in_set(self.assign.kind, [ord("i"), ord("u")]), z3.Not(self.assign.masked)]
 
@@ -1983,8 +1984,18 @@ class CatDef:
     """the '-catdef' entry of the output (a pandas Categorical dtype holder)"""
     tracked = False
 
+    def __init__(self):
+        # the category definition is SHARED by all row groups of a read: at entry of read_col its labels are either the placeholder
+        # RangeIndex of the pre-allocation or whatever an earlier row group installed - arbitrary
+        self.prior_placeholder = z3.Bool("catdef_labels_are_the_placeholder_at_entry")
+
     def hasattr(self, eng, p, name):
         return z3.BoolVal(name == "_set_categories")
+
+    def attr(self, eng, p, name):
+        if name == "categories":
+            return Custom(Labels(self, p.ghost.get("cats_from", z3.IntVal(-1))))
+        raise Unsupported("catdef." + name)
 
     def getattr_default(self, eng, p, name, default):
         if name == "_multiindex":
@@ -1999,6 +2010,25 @@ class CatDef:
             p.ghost["cats_from"] = src.page if isinstance(src, DictVal) else z3.IntVal(-2)
             return [(p, NONE)]
         raise Unsupported("catdef." + name)
+
+
+class Labels:
+    """catdef.categories as seen at one moment: `set_from` = page whose dictionary was installed in THIS call (-1: none yet, the labels
+    are the prior ones)"""
+    tracked = False
+
+    def __init__(self, catdef, set_from):
+        self.catdef, self.set_from = catdef, set_from
+
+    def isinstance(self, eng, p, tn):
+        if "RangeIndex" in tn:
+            return z3.And(self.set_from == -1, self.catdef.prior_placeholder)
+        raise Unsupported("isinstance(catdef.categories, " + tn + ")")
+
+    def len(self, eng, p):
+        n = fint("len_labels")
+        p.pc.append(n >= 0)
+        return PyI(n)
 
 
 class IndexOf:
@@ -2316,6 +2346,14 @@ def run_read_col(ctx, funcs, timeout, mode, any_sizes=False, mask=False):
                 eng.oblige(r, fn + ".dictionary_page.categories_installed_from_it", "post",
                            z3.BoolVal(len(sc) == 1 and isinstance(sc[0]["src"], DictVal) and sc[0]["src"].raw is d), st,
                            "categorical read: the categories are installed once, from this (converted) dictionary")
+                eng.oblige(r, fn + ".categorical_labels_are_this_chunks_dictionary", "post",
+                           z3.And(r.ghost.get("cats_from", z3.IntVal(-1)) == k,
+                                  z3.BoolVal(bool(sc) and isinstance(sc[-1]["src"], DictVal) and sc[-1]["src"].raw is d)), st,
+                           "on EVERY path that processed a dictionary page the labels of the output categorical are Index(<that page's "
+                           "dictionary>) - whatever labels the shared category definition carried before (placeholder or an earlier row "
+                           "group's): a guard on the prior state leaves a path with stale labels")
+                eng.oblige(r, fn + ".dictionary_page.labels_fit_the_code_dtype", "post", C.iinfo_max >= d.n, st,
+                           "past the dictionary block the number of labels fits the dtype of the codes array (else RuntimeError)")
         if "page_v1" in kinds and mask:
             after_body_mask(eng, r, st, k, pg, evs, stores)
         elif "page_v1" in kinds:
@@ -2511,6 +2549,7 @@ def run_read_col(ctx, funcs, timeout, mode, any_sizes=False, mask=False):
             k, pg = kpg
             p0 = C.page(z3.IntVal(0))
             unsupported = z3.Or(pg.type == PT["INDEX_PAGE"],
+                                z3.And(z3.BoolVal(cat), pg.type == PT["DICTIONARY_PAGE"], C.iinfo_max < pg.dnv),
                                 z3.And(z3.BoolVal(cat), z3.Or(z3.Not(z3.And(C.K >= 1, p0.type == PT["DICTIONARY_PAGE"])),
                                                               z3.And(pg.type == PT["DATA_PAGE"], z3.Not(in_set(pg.enc, DICT_ENCS))),
                                                               z3.And(pg.type == PT["DATA_PAGE_V2"], z3.Not(in_set(pg.enc2, DICT_ENCS))))))
@@ -2810,7 +2849,8 @@ def check(ctx, timeout, parts=("dictionary_page", "data_page_v1", "data_page_v2"
     runs = {"dictionary_page": run_dictionary_page, "data_page_v1": run_data_page_v1, "data_page_v2": run_data_page_v2,
             "read_col": lambda c, f, t: [run_read_col(c, f, t, "values"), run_read_col(c, f, t, "categorical"),
                                          run_read_col(c, f, t, "values", any_sizes=True)],
-            "read_col_mask": lambda c, f, t: [run_read_col(c, f, t, "values", mask=True)]}
+            "read_col_mask": lambda c, f, t: [run_read_col(c, f, t, "values", mask=True)],
+            "read_col_cat": lambda c, f, t: [run_read_col(c, f, t, "categorical")]}
     for part in parts:
         if part not in runs:
             continue
